@@ -58,7 +58,8 @@ type Prog struct {
 	mods   map[*ssa.Function]*Effects
 	anchor []string // anchor resolution failures
 
-	statsFields map[*types.Var]bool
+	statsFields     map[*types.Var]bool
+	addrTakenFields map[*types.Var]bool
 }
 
 func goEnv(v Variant) []string {
@@ -168,6 +169,7 @@ func Load(dir string, v Variant) (*Prog, error) {
 	}
 	sortFuncs(p.Funcs)
 	sortFuncs(p.RuleFuncs)
+	curProg = p
 	return p, nil
 }
 
